@@ -145,6 +145,60 @@ def verifyKVPairProof (H : Bytes → Bytes) (root key value proof : Bytes) : Boo
   | none => false
   | some ins => Proof.verify H ⟨leafHash, ins, root⟩ key value root
 
+/-! ### the same verifier with the Go slice expressions explicit (for `C03.verify_total`)
+
+`Proof.Verify` and `InnerNode.Hash` cut hashes with `h[len(h)-32:]`; a Go slice expression panics when the bound
+is out of range.  `sliceFrom` is that expression with its panic outcome; the `…P` functions are the verifier written
+with it.  (The other operations on the path cannot panic: `proto.Unmarshal` returns an error and allocates every
+element of the repeated field, the getters are nil-safe, the rest is hashing and comparison.)  The driver runs
+`verifyKVPairProofP`. -/
+
+/-- `b[i:]`: panics when `i > len(b)`. -/
+def sliceFrom (b : Bytes) (i : Nat) : Res Bytes := if i ≤ b.length then .ok (b.drop i) else .panic
+
+/-- `if len(h) > 32 { h = h[len(h)-32:] }`. -/
+def last32P (b : Bytes) : Res Bytes := if b.length > 32 then sliceFrom b (b.length - 32) else .ok b
+
+/-- `InnerNode.Hash` pre-image with the two slice expressions explicit. -/
+def innerEncP (lh rh : Bytes) (height size : Int) : Res Bytes :=
+  match last32P lh, last32P rh with
+  | .ok l, .ok r => .ok (Proto.fBytes 1 l ++ Proto.fBytes 2 r ++ Proto.fInt64 3 height ++ Proto.fInt64 4 size)
+  | _, _ => .panic
+
+def innerNodeProofHashP (H : Bytes → Bytes) (child : Bytes) (b : InnerNode) : Res Bytes :=
+  match (if b.leftHash.isEmpty then innerEncP child b.rightHash b.height b.size
+         else innerEncP b.leftHash child b.height b.size) with
+  | .ok e => .ok (H e)
+  | _ => .panic
+
+def verifyLoopP (H : Bytes → Bytes) : Bytes → List InnerNode → Res (Option Bytes)
+  | h, [] => .ok (some h)
+  | h, b :: rest =>
+    if goodBranch b then
+      match innerNodeProofHashP H h b with
+      | .ok h' => verifyLoopP H h' rest
+      | _ => .panic
+    else .ok none
+
+def Proof.verifyP (H : Bytes → Bytes) (p : Proof) (key value root : Bytes) : Res Bool :=
+  if p.rootHash != root then .ok false
+  else
+    let leafHash := H (leafEnc key value)
+    match last32P p.leafHash with
+    | .ok lh =>
+      if leafHash != lh then .ok false
+      else match verifyLoopP H leafHash p.inners with
+        | .ok none => .ok false
+        | .ok (some h) => .ok (h == p.rootHash)
+        | _ => .panic
+    | _ => .panic
+
+def verifyKVPairProofP (H : Bytes → Bytes) (root key value proof : Bytes) : Res Bool :=
+  let leafHash := H (leafEnc key value)
+  match decodeProof proof with
+  | none => .ok false
+  | some ins => Proof.verifyP H ⟨leafHash, ins, root⟩ key value root
+
 namespace Drv
 open C01.Drv Wire
 
@@ -183,7 +237,7 @@ def handle (s : Store) (ws : List String) : Option (Store × String) :=
     let k ← pBytes k
     let v ← pBytes v
     let p ← pBytes p
-    pure (s, b01 (verifyKVPairProof C01.Drv.H root k v p))
+    pure (s, match verifyKVPairProofP C01.Drv.H root k v p with | .ok b => b01 b | _ => "panic")
   | _ => C02.Drv.handle s ws
 
 def step (s : Store) (line : String) : Store × String :=
